@@ -156,7 +156,7 @@ func runC20Core(_ *testing.T, c c20CoreCase) kit.Outcome {
 						return kit.Viol("core:sample-metrics", "op %d %+v: drop counter incremented by %v", i, o, g.Value)
 					}
 				default:
-					return kit.Viol("core:sample-metrics", "op %d %+v: sample on unexpected metric %q", i, o, g.ID)
+					// further metrics a sampler may emit are not promised against
 				}
 			}
 			wantDrop := 0
